@@ -16,6 +16,9 @@ def lemma_json_quoting(s: str) -> bool:
     return json_unquote(json_safename(s)) == s
 
 
+NAME_SAMPLES = ['A', 'a_b', 'x y', '"q"', 'a"b', '"', '""', '', 'Ünï', '"lead', 'trail"', '1st', 'A AND B', '"a" "b"', ' ', '"\u00e9"']
+
+
 @lemma
 def lemma_json_ctc_roundtrip(n: 'Node') -> bool:
     """reading back what the writer wrote for a constraint tree gives that tree (both functions through their contracts)"""
@@ -25,6 +28,7 @@ def lemma_json_ctc_roundtrip(n: 'Node') -> bool:
 @contract(TR + 'json_reader.py', 'unquote', prop='C05')
 class JsonUnquote:
     doc_view = ('type', 'operands')
+    gen_name = staticmethod(lambda model: NAME_SAMPLES)
     lemmas = ('lemma_json_quoting', 'lemma_dec_enc', 'lemma_enc_is_writer_doc', 'lemma_json_ctc_roundtrip')
     reveal_in = ('lemma_json_quoting',)
     as_function = True
@@ -37,6 +41,7 @@ class JsonUnquote:
 @contract(TR + 'json_writer.py', 'safename', prop='C05')
 class JsonSafename:
     as_function = True
+    gen_name = staticmethod(lambda model: NAME_SAMPLES)
 
     def post_shape(name, result):
         return result == name or result == '"' + name + '"'
@@ -48,7 +53,15 @@ class GetCtcInfo:
     """the writer produces exactly the document the format defines for the tree"""
     doc_view = ('type', 'operands')
     result_kind = 'Element'
-    native = False
+
+    @staticmethod
+    def models(scope, seed):
+        from contracts.c18 import ctc_models
+        return ctc_models(scope, seed)
+
+    @staticmethod
+    def gen_ast_node(model):
+        return [c.ast.root for c in model.ctcs]
 
     def pre(ast_node):
         return json_tree(ast_node)
@@ -63,9 +76,16 @@ class ParseAstConstraint:
     doc_view = ('type', 'operands')
     kinds = {'ctc_info': 'Element'}
     raises = ('ParsingException',)
-    native = False
-
     verifier_only = ('post',)
+
+    @staticmethod
+    def models(scope, seed):
+        from contracts.c18 import ctc_models
+        return ctc_models(scope, seed)
+
+    @staticmethod
+    def gen_ctc_info(model):
+        return [enc(c.ast.root) for c in model.ctcs if json_tree(c.ast.root)]
 
     def pre(ctc_info):
         return writer_doc(ctc_info)
